@@ -41,6 +41,7 @@ import Rl.Lemmas.RenderGhost
 import Rl.Lemmas.RenderLogTop
 import Rl.Lemmas.RenderLogExec
 import Rl.Lemmas.RenderLogBd
+import Rl.Lemmas.RenderLogBdTop
 import Rl.Lemmas.CharSearch
 import Rl.Lemmas.EditorNextRet
 import Rl.Lemmas.LBFaithful
@@ -666,6 +667,22 @@ def C02_editorLog (S : Segmenter) (U : UData) (cfg : EdCfg) (ring : KillRing) (l
     List RenderOp :=
   (readline S U cfg ring left right inp).2.render.tail.reverse
 
+/-- **Every cursor the editor model logs is on a character boundary of the logged line** — derived from the
+    line-buffer invariant (`BdI`: `WF s.line ∧ WF s.saved ∧ LogBd s.render`, a step invariant carried through every
+    rendering primitive, both key maps, every command of `execute`, circular and listing completion, incremental
+    search, the dispatch loop, the main loop and the initial text: `Rl/Lemmas/RenderLogBd*.lean`, with C03's
+    totality theorems and package L's `lmsafe_*` per operation, C09 for search positions).  Hypotheses: the indent
+    size fits the code's `u8`, and `yank_pop` / the undo log leave the cursor on a boundary whenever they return
+    (`YankPopWF`, `UndoWF`: statements about `Rl/LineBuffer.lean` / `Rl/Undo.lean` alone).  No contract on the
+    completer, validator, hinter or bindings is needed: `replace` slices at both ends, so it either panics or leaves a
+    well-formed cursor. -/
+theorem C02_logBd (S : Segmenter) (U : UData) (cfg : EdCfg) (ring : KillRing) (left right : Text) (inp : Input)
+    (hind : cfg.indentSize ≤ 255) (hpop : YankPopWF S U) (hundo : UndoWF S U) :
+    LogBd (C02_editorLog S U cfg ring left right inp).reverse := by
+  unfold C02_editorLog
+  rw [List.reverse_reverse]
+  exact readline_logBd hind hpop hundo ring left right inp
+
 /-- **The editor model's log is coherent and replays without panic**, for logs whose texts are of the
     quantified kind (`LogPlain`: a restriction on what is typed, stored, completed and hinted) and whose cursors are
     on character boundaries (`LogBd`: the line-buffer invariant of C03 / C17 at the moments the renderer is called;
@@ -674,13 +691,14 @@ theorem C02_editor_log_coherent (S : Segmenter) (U : UData) (cfg : EdCfg) (ring 
     (inp : Input) (hc : 2 ≤ cfg.cols) (hprompt : C02_Plain S (edR U cfg) cfg.prompt)
     (hctl : C02_CtlZero U)
     (hplain : LogPlain S (edR U cfg) cfg.prompt (C02_editorLog S U cfg ring left right inp).reverse)
-    (hbd : LogBd (C02_editorLog S U cfg ring left right inp).reverse) :
+    (hind : cfg.indentSize ≤ 255) (hpop : YankPopWF S U) (hundo : UndoWF S U) :
     ∃ rs g, RepFrom S (edR U cfg) cfg.prompt (RS.init S (edR U cfg) cfg.prompt) {}
         (C02_editorLog S U cfg ring left right inp) rs g ∧
       C02_Coherent S (edR U cfg) cfg.prompt (RS.init S (edR U cfg) cfg.prompt) {}
         (C02_editorLog S U cfg ring left right inp) ∧
       RS.run S (edR U cfg) cfg.prompt (RS.init S (edR U cfg) cfg.prompt)
         (C02_editorLog S U cfg ring left right inp) = (rs, false) := by
+  have hbd := C02_logBd S U cfg ring left right inp hind hpop hundo
   have hfine := (logFine_iff S (edR U cfg) cfg.prompt _).2 ⟨hplain, hbd⟩
   have hlb : LBFaithful S U := C02_lbFaithful S U
   have hnext := fun fuel sea iep => pres_nextCmd (S := S) (U := U) (cfg := cfg) hc hprompt fuel sea iep
@@ -706,7 +724,7 @@ theorem C02_editor_shows (S : Segmenter) (U : UData) (cfg : EdCfg) (ring : KillR
     (inp : Input) (hc : 2 ≤ cfg.cols) (hprompt : C02_Plain S (edR U cfg) cfg.prompt)
     (hctl : C02_CtlZero U)
     (hplain : LogPlain S (edR U cfg) cfg.prompt (C02_editorLog S U cfg ring left right inp).reverse)
-    (hbd : LogBd (C02_editorLog S U cfg ring left right inp).reverse)
+    (hind : cfg.indentSize ≤ 255) (hpop : YankPopWF S U) (hundo : UndoWF S U)
     (ops rest : List RenderOp) (line : Text) (pos : Nat) (hint : Option Text) (b a : Text)
     (hlog : C02_editorLog S U cfg ring left right inp = (ops ++ [.sync line pos hint]) ++ rest)
     (hsplit : splitAtByte line pos = some (b, a)) :
@@ -717,7 +735,7 @@ theorem C02_editor_shows (S : Segmenter) (U : UData) (cfg : EdCfg) (ring : KillR
        Shows (edR U cfg).cw ((Term.blank (edR U cfg).cols).feed (edR U cfg).cw
           (RS.run S (edR U cfg) cfg.prompt (RS.init S (edR U cfg) cfg.prompt)
             (ops ++ [.sync line pos hint])).1.segs.reverse.flatten) p b a []) := by
-  obtain ⟨rs, g, hrep, _, _⟩ := C02_editor_log_coherent S U cfg ring left right inp hc hprompt hctl hplain hbd
+  obtain ⟨rs, g, hrep, _, _⟩ := C02_editor_log_coherent S U cfg ring left right inp hc hprompt hctl hplain hind hpop hundo
   rw [hlog] at hrep
   obtain ⟨rs1, g1, h1⟩ := hrep.prefix
   have hco := h1.coherent
@@ -742,3 +760,9 @@ def C02_logBd_statement : Prop :=
     cfg.indentSize ≤ 255 → S.Stable → BindsI cfg →
     (readline S U cfg (KillRing.new 60) left right inp).1 ≠ .panic →
     LogBd (C02_editorLog S U cfg (KillRing.new 60) left right inp).reverse
+
+/-- not proved yet: what `C02_logBd` asks of `yank_pop` and of the undo log — whenever they return (anything but a
+    panic), the cursor of the line is on a character boundary.  `yank_pop` removes the last yank by slicing (`drain`
+    → `split3`, which panics off a boundary) and then pastes with `yank`; `Changeset::undo` replays recorded edits
+    with the slicing primitives.  Statements about `Rl/LineBuffer.lean` / `Rl/Undo.lean` alone. -/
+def C02_popUndoWF_statement : Prop := ∀ (S : Segmenter) (U : UData), YankPopWF S U ∧ UndoWF S U
